@@ -20,19 +20,21 @@ import (
 // content with Dir[name]=true is a directory). The worker runs the real code on
 // it; the Lean driver runs the model on the line produced by LeanLine.
 type Case struct {
-	ID    int               `json:"id"`
-	Op    string            `json:"op"`
-	Files map[string][]byte `json:"files,omitempty"`
-	Dirs  []string          `json:"dirs,omitempty"`
-	Root  string            `json:"root,omitempty"`
-	Args  []string          `json:"args,omitempty"` // op specific
-	Tag   string            `json:"tag,omitempty"`  // generator class (for the distribution)
+	ID           int               `json:"id"`
+	Op           string            `json:"op"`
+	Files        map[string][]byte `json:"files,omitempty"`
+	Dirs         []string          `json:"dirs,omitempty"`
+	Root         string            `json:"root,omitempty"`
+	RootSpelling string            `json:"root_spelling,omitempty"` // how the caller spells the root path relative to the project dir (e.g. "./root.jst")
+	Args         []string          `json:"args,omitempty"`          // op specific
+	Tag          string            `json:"tag,omitempty"`           // generator class (for the distribution)
+	Exp          []ExpLex          `json:"exp,omitempty"`           // lexemes a rendered document is known to consist of
 	// filled by the run
-	Oracle map[string]string `json:"oracle,omitempty"` // answers of schema-core shipped to the model
-	GoOut  string            `json:"go_out,omitempty"`
-	LeanIn string            `json:"lean_in,omitempty"`
-	LeanOut string           `json:"lean_out,omitempty"`
-	Detail  string           `json:"detail,omitempty"`
+	Oracle  map[string]string `json:"oracle,omitempty"` // answers of schema-core shipped to the model
+	GoOut   string            `json:"go_out,omitempty"`
+	LeanIn  string            `json:"lean_in,omitempty"`
+	LeanOut string            `json:"lean_out,omitempty"`
+	Detail  string            `json:"detail,omitempty"`
 }
 
 func hx(b []byte) string {
@@ -354,9 +356,10 @@ func tail(s string, n int) string {
 // ops and reports
 
 type opDef struct {
-	exec     func(c *Case) workerResult     // real code
-	leanLine func(c *Case) string           // model input line
+	exec     func(c *Case) workerResult      // real code
+	leanLine func(c *Case) string            // model input line
 	resolve  func(c *Case, miss string) bool // answer an ORACLE-MISS; false if impossible
+	noModel  bool                            // no Lean counterpart: monitors only
 }
 
 var ops = map[string]*opDef{}
@@ -376,19 +379,19 @@ type Disagreement struct {
 }
 
 type Report struct {
-	Op            string         `json:"op"`
-	Seed          uint64         `json:"seed"`
-	Evaluations   int            `json:"evaluations"`
-	DistinctNontrivial int       `json:"distinct_nontrivial"`
-	Rule          string         `json:"rule"`
-	ByTag         map[string]int `json:"by_tag"`
-	OutcomeClasses map[string]int `json:"outcome_classes"`
-	SizeHistogram map[string]int `json:"size_histogram"`
-	Disagreements []Disagreement `json:"disagreements"`
-	Monitor       []Disagreement `json:"monitor_failures"` // property monitor failures on the implementation's own output
-	Samples       []any          `json:"samples"`
-	WallS         float64        `json:"wall_s"`
-	Notes         []string       `json:"notes,omitempty"`
+	Op                 string         `json:"op"`
+	Seed               uint64         `json:"seed"`
+	Evaluations        int            `json:"evaluations"`
+	DistinctNontrivial int            `json:"distinct_nontrivial"`
+	Rule               string         `json:"rule"`
+	ByTag              map[string]int `json:"by_tag"`
+	OutcomeClasses     map[string]int `json:"outcome_classes"`
+	SizeHistogram      map[string]int `json:"size_histogram"`
+	Disagreements      []Disagreement `json:"disagreements"`
+	Monitor            []Disagreement `json:"monitor_failures"` // property monitor failures on the implementation's own output
+	Samples            []any          `json:"samples"`
+	WallS              float64        `json:"wall_s"`
+	Notes              []string       `json:"notes,omitempty"`
 }
 
 func caseDisagreement(c *Case) Disagreement {
@@ -407,6 +410,12 @@ func correspond(op string, cases []*Case, rep *Report, timeout time.Duration) {
 	def := ops[op]
 	runWorkers(cases, timeout)
 	pending := cases
+	if def.noModel {
+		pending = nil
+		for _, c := range cases {
+			c.LeanOut = c.GoOut
+		}
+	}
 	for round := 0; round < 600 && len(pending) > 0; round++ {
 		lines := make([]string, len(pending))
 		for i, c := range pending {
